@@ -786,6 +786,39 @@ theorem pi_rtol_stop_unsound :
   refine ⟨by decide +kernel, by decide +kernel, by decide +kernel, by decide +kernel,
     by decide +kernel, by decide +kernel, by decide +kernel⟩
 
+/-! ## `solve(method=…)`: the accepted method names -/
+
+/-- **method dispatch, characterised.** `methodOfName` (the `if / elif / else: raise ValueError` chain
+    of `DiscreteDP.solve`) selects value iteration exactly for the names `value_iteration`, `vi`,
+    policy iteration exactly for `policy_iteration`, `pi`, modified policy iteration exactly for
+    `modified_policy_iteration`, `mpi`, linear programming exactly for `linear_programming`, `lp`,
+    and raises (`none`) exactly for every other string. -/
+theorem methodOfName_iff (s : String) :
+    (methodOfName s = some .vi ↔ s = "value_iteration" ∨ s = "vi") ∧
+    (methodOfName s = some .pi ↔ s = "policy_iteration" ∨ s = "pi") ∧
+    (methodOfName s = some .mpi ↔ s = "modified_policy_iteration" ∨ s = "mpi") ∧
+    (methodOfName s = some .lp ↔ s = "linear_programming" ∨ s = "lp") ∧
+    (methodOfName s = none ↔ s ∉ ["value_iteration", "vi", "policy_iteration", "pi",
+      "modified_policy_iteration", "mpi", "linear_programming", "lp"]) := by
+  unfold methodOfName
+  by_cases h1 : s = "value_iteration" ∨ s = "vi"
+  · rcases h1 with rfl | rfl <;> simp
+  by_cases h2 : s = "policy_iteration" ∨ s = "pi"
+  · rcases h2 with rfl | rfl <;> simp
+  by_cases h3 : s = "modified_policy_iteration" ∨ s = "mpi"
+  · rcases h3 with rfl | rfl <;> simp
+  by_cases h4 : s = "linear_programming" ∨ s = "lp"
+  · rcases h4 with rfl | rfl <;> simp
+  · rw [if_neg h1, if_neg h2, if_neg h3, if_neg h4]
+    simp only [not_or] at h1 h2 h3 h4
+    simp [h1.1, h1.2, h2.1, h2.2, h3.1, h3.2, h4.1, h4.2]
+
+example : methodOfName "mpi" = some .mpi := by decide
+example : methodOfName "linear_programming" = some .lp := by decide
+example : methodOfName "VI" = none := by decide
+example : methodOfName "value iteration" = none := by decide
+example : hexToString "7069" = some "pi" := by decide
+
 /-! ## non-vacuity: Puterman's two-state example (ddp.py docstring), β = 1/2 -/
 
 /-- state 0: action 0 (r = 5, q = (½,½)), action 1 (r = 10, q = (0,1)); state 1: action 0
